@@ -372,9 +372,14 @@ def install():
     import tqdm
     import tqdm.std
 
+    import threading
+
     tqdm.tqdm.monitor_interval = 0
     tqdm.std.tqdm.monitor_interval = 0
     tqdm.std.time = CLOCK.time
+    # tqdm's default write lock contains a multiprocessing.RLock created at first use; if that
+    # happens before the workers are forked, all of them serialise on it for every refresh
+    tqdm.std.tqdm.set_lock(threading.RLock())
     _INSTALLED = True
 
 
